@@ -49,7 +49,7 @@ private:
    bool pass( const log::detail::LogMsg& msg) const override;
 
    /// Set of log classes to accept.
-   std::bitset< static_cast< size_t>( LogClass::operatorAction)>  mClassSelection;
+   std::bitset< static_cast< size_t>( LogClass::operatorAction) + 1>  mClassSelection;
 
 }; // LogFilterClasses
 
